@@ -26,10 +26,13 @@ from common import REPO, CORPUS
 PROPERTY = "C06"
 RULE = ("schemas: gen/schema.py (sizes 1-3, + subscription root); documents valid by construction (operations, nested "
         "fragments, inline fragments, variables shared between operations through fragments, directives, input objects, "
-        "mergeable duplicate fields); each then gets every applicable one of 39 labelled single-rule violations (incl. fragment cycles through the sub-selection of a field, variables INSIDE list literals, depth 1-2, below object fields) "
+        "mergeable duplicate fields); each then gets every applicable one of 46 labelled single-rule violations (incl. fragment cycles through the sub-selection of a field, variables INSIDE list literals, depth 1-2, below object fields) "
         "(26 rule visitors / 26 specification rules) and 8 metamorphic transformations; non-trivial = distinct "
         "(document text) that is either valid with >= 2 definitions or a fragment, or carries a violation")
 ASSUMPTIONS = [
+    "reading of 5.8.5 at a list literal written at a NON-list position (e.g. `[ $v ]` at a custom scalar): the items are typed "
+    "with the position's nullable type, as graphql-js does (TypeInfoVisitor.enter_list_value), and VariablesInAllowedPosition "
+    "compares the variable's type against it; below an object field of a literal at a custom scalar the position has no type",
     "documents are produced by the real parser from generated text (validate_ast assumes parser output)",
     "validation is expected to RETURN (C05; ledger V1, V2 and the custom-scalar object literal are fixed in /repo): an input "
     "on which the real validator raises is reported (`validation-raises:*`), not skipped",
